@@ -267,6 +267,12 @@ def relSlice (t : SliceIn Float) (impl : List String) : List (String × Bool) :=
     | _ => [("region_inside_data_is_returned", false)]
 
 def handle (op : String) (args impl : List String) : Option Out :=
+  -- the harness asked every entry point of the public API that offers this retrieval (util:: functions by index / by array / by
+  -- feature, the member functions by index, name and id, the deprecated aliases, with the RangeMatch spelled out and by default)
+  -- and one of them answered differently from the primary one: whichever of the two is right, they do not return the same region
+  if (impl.take 2) == ["ok", "ROUTES-DIFFER"] && ["tag_data", "tag_feat", "mtag_data", "mtag_data1", "mtag_feat"].contains op then
+    some (.rel s!"{op}.doors" "every_entry_point_returns_the_same_region")
+  else
   match op with
   | "tag_oc" => some <|
     match parseTag args with
